@@ -530,6 +530,14 @@ def run(run):
     assocpasses(run, fx)
     from . import c03
     c03.nomutpos(run, vm)        # no pass that runs after associateChars may insert or delete slots: the loader types every pass from m_pPass on as POSITIONING or later (shared with C03)
+    from .util import share as _share
+    if not getattr(run, '_sharing', False):
+        run._sharing = True
+        try:
+            _share(run, 'c03', ['INDEX', 'LINKSYM', 'GROWTH'], 'CINFO')      # slot indices and the stream the char-infos point into (shared with C03)
+            _share(run, 'c11', ['LEADREJECT'], 'ONEPERCHAR')               # what counts as one character (shared with C11)
+        finally:
+            run._sharing = False
     from . import c19 as c19_
     from .util import OnlyRules
     c19_.justify_rules(OnlyRules(run, ['RESTORE'], {'RESTORE': 'NOMUTPOS'}), fx)      # gr_seg_justify gives the segment its own first / last slot back: the characters of the lines in front stay covered (shared with C19)
